@@ -5,6 +5,19 @@ import json, pathlib
 ALL = [f'C{i:02d}' for i in range(1, 20)]
 
 CHECKS = {
+ 'C01': dict(
+   technique='Coq proof (induction over the point list, invariant machine-shutter = tracked-shutter) + token-level differential + verified-by-construction replay monitor on femto\'s own .pgm',
+   text='Props/C01.v: for every configuration, compiler state, agreeing machine state and 0/1-flagged point list the modelled '
+        'write either raises before emitting (feed below the printable limit) or emits a program whose run on the reference '
+        'controller visits exactly the formatted transformed points, in order, with each point\'s feed and shutter, ends with '
+        'the tracked shutter state, and prints the configured decimals; fmt is within half a last-digit unit of the exact value. '
+        'Tie to /repo: femto writes a .pgm for generated matrices (builder paths, lattice walks, exhaustive toggle patterns, '
+        'malformed stream) x configurations; the lexed file is compared token by token with the model and replayed on the '
+        'controller model inside Coq.',
+   note='Trusted: Coq kernel, harness/lexer.py, harness/pgm.py (cfg rendering, cos/sin/k read from femto t_matrix), '
+        'reference controller Ctl/Machine.v is a specification written for this task; float64 matmul rounding covered by a '
+        'one-last-digit tolerance; float32 shift subtraction modelled exactly (rnd32).',
+   design='5/C01'),
  'C11': dict(
    technique='Coq proof (induction over lists, any type with decidable equality) + differential correspondence model-vs-femto via vm_compute',
    text='Theorems in coq/theories/Props/C11.v prove, for every list over every type with decidable equality, that the modelled '
